@@ -46,3 +46,68 @@ fn c18_sep() {
     kani::cover!(idx.is_none() && l == 3 && b[2] == b',', "W:sep.escaped_separator");
 }
 
+
+// ------------------------------------------------------------------------------------------- C18.redirect_gate
+/// the one resource the stubbed lookup hands back (name → resource is a `HashMap<String, Resource>`; the lookup
+/// is replaced, everything after it in `get_redirect_resource` is the real code)
+static mut GATE_RES: Option<Resource> = None;
+fn stub_get_internal_resource<'a>(_s: &'a ResourceStorage, _ident: &str) -> Option<&'a Resource> {
+    unsafe {
+        let p: *const Option<Resource> = core::ptr::addr_of!(GATE_RES);
+        (*p).as_ref()
+    }
+}
+fn stub_fmt_format(_a: core::fmt::Arguments<'_>) -> String {
+    String::new()
+}
+fn kind_of(k: u8) -> ResourceType {
+    use crate::resources::MimeType;
+    match k {
+        0 => ResourceType::Template,
+        1 => ResourceType::Mime(MimeType::TextCss),
+        2 => ResourceType::Mime(MimeType::ImageGif),
+        3 => ResourceType::Mime(MimeType::TextHtml),
+        4 => ResourceType::Mime(MimeType::ApplicationJavascript),
+        5 => ResourceType::Mime(MimeType::ApplicationJson),
+        6 => ResourceType::Mime(MimeType::AudioMp3),
+        7 => ResourceType::Mime(MimeType::VideoMp4),
+        8 => ResourceType::Mime(MimeType::ImagePng),
+        9 => ResourceType::Mime(MimeType::TextPlain),
+        10 => ResourceType::Mime(MimeType::TextXml),
+        11 => ResourceType::Mime(MimeType::FnJavascript),
+        _ => ResourceType::Mime(MimeType::Unknown),
+    }
+}
+
+/// "a resource that requires any permission is never served as a redirect", and only redirectable kinds are:
+/// the real `get_redirect_resource` after the name lookup, for every permission byte × every resource kind.
+#[kani::proof]
+#[kani::unwind(4)]
+#[kani::stub(ResourceStorage::get_internal_resource, stub_get_internal_resource)]
+#[kani::stub(alloc::fmt::format, stub_fmt_format)]
+#[kani::stub(std::hash::RandomState::new, crate::verif_shim::stub_random_state_new)]
+fn c18_redirect_gate() {
+    let mut dr = crate::verif_shim::Draw::new();
+    let p: u8 = dr.u8();
+    let k: u8 = dr.u8();
+    kani::assume(k <= 12);
+    unsafe {
+        GATE_RES = Some(Resource {
+            name: String::new(),
+            aliases: Vec::new(),
+            kind: kind_of(k),
+            content: String::new(),
+            dependencies: Vec::new(),
+            permission: PermissionMask::from_bits(p),
+        });
+    }
+    let st = ResourceStorage::default();
+    let got = st.get_redirect_resource("x").is_some();
+    let want = p == 0 && k != 0 && k != 11;
+    assert!(!(got && p != 0), "P:redirect.permissioned_resource_never_served");
+    assert!(!(got && (k == 0 || k == 11)), "P:redirect.only_redirectable_kinds");
+    assert!(got == want, "P:redirect.served_iff_unpermissioned_and_redirectable");
+    kani::cover!(got, "W:redirect.served");
+    kani::cover!(!got && p != 0 && k == 2, "W:redirect.refused_for_permission");
+    core::mem::forget(st);
+}
